@@ -413,6 +413,8 @@ def check_toc(mc, md):
         cls = schemas.get(name, ver)
         if mc.metador.schemas[ref] != json.loads(cls.schema_json()):
             return ("embedded JSON schema differs from the plugin's", ep)
+        if SEL.get("c20") and mc.metador.schemas.get(ref) != mc.metador.schemas[ref]:
+            return ("schemas.get(ref) does not report the embedded JSON schema", ep, repr(mc.metador.schemas.get(ref))[:40])
         if mc.metador.schemas.parent_path(name, ver) != schemas.parent_path(name, ver):
             return ("embedded parent chain differs", ep)
         prov = mc.metador.schemas.provider(ref)
@@ -420,6 +422,14 @@ def check_toc(mc, md):
             return ("embedded provider differs", ep)
         if ref not in prov.plugins.get("schema", []):
             return ("embedded package does not list the schema it provides", ep)
+    if SEL.get("c20"):
+        unused = schemas.PluginRef(name="core.bib", version=(0, 1, 0))
+        if unused not in mc.metador.schemas.keys():
+            try:
+                if mc.metador.schemas.get(unused) is not None:
+                    return ("schemas.get() reports a schema that is not stored",)
+            except Exception as e:  # noqa
+                return ("schemas.get() of a schema that is not stored fails instead of returning None", type(e).__name__)
     # every stored object validates against the embedded JSON Schema of its schema
     import jsonschema
 
